@@ -501,6 +501,8 @@ func (rc *refCat) schema(s *Schema) Unordered {
 		e.Set("content", U("tokenType", "number", "type", "integer", "scalarValue", fmt.Sprint(s.Int), "optional", false))
 	case "str":
 		e.Set("content", U("tokenType", "string", "type", "string", "scalarValue", s.Str, "optional", false))
+	case "bool":
+		e.Set("content", U("tokenType", "boolean", "type", "boolean", "scalarValue", "true", "optional", false))
 	}
 	sort.Strings(may)
 	e.Set("usedUserTypes", NameSet{Must: used, May: may})
